@@ -156,6 +156,12 @@ P_C01_Prune        == AtEnd => C01_Prune(EPre, S, esum)
 
 P_C02_Success      == (AtEnd /\ esum.ok) => C02_Success(EPre, S, esum)
 P_C02_Uninstall    == (AtEnd /\ esum.ok) => C02_Uninstall(EPre, S, esum)
+\* ... and every kept resource is listed in the response (monitor only: the response is not part of the model state)
+P_C02_UninstallListed ==
+  (AtEnd /\ esum.ok /\ esum.u.kind = "uninstall" /\ ~esum.u.dry /\ esum.flt = {} /\ Revs(EPre.store) # {}
+     /\ EPre.store[MaxOf(Revs(EPre.store))].st # "uninstalled") =>
+    LET man == EPre.store[MaxOf(Revs(EPre.store))].man IN
+    \A r \in DOMAIN man : man[r].pol = "keep" => r \in Range(Trace[l].kept)
 P_C02_Bystanders   == IsCall => C02_Bystanders(pre[CurProc].store, B, S, CurU.chart)
 
 P_C03_Error         == AtEnd => C03_Error(esum)
@@ -215,6 +221,7 @@ Checks == <<
   [n |-> "C01_Prune",         v |-> P_C01_Prune],
   [n |-> "C02_Success",       v |-> P_C02_Success],
   [n |-> "C02_Uninstall",     v |-> P_C02_Uninstall],
+  [n |-> "C02_UninstallListed", v |-> P_C02_UninstallListed],
   [n |-> "C02_Bystanders",    v |-> P_C02_Bystanders],
   [n |-> "C03_Error",         v |-> P_C03_Error],
   [n |-> "C03_Failed",        v |-> P_C03_Failed],
